@@ -219,6 +219,23 @@ def make_pictures(cfg, outcome, seed):
     return pics
 
 
+def share_objects(pictures, how):
+    """how = "rows": every plane becomes h references to ONE row object (its first row); "planes": C2 is the very
+    object C1 (so both hold C1's values); "both": both."""
+    out = []
+    for p in pictures:
+        q = dict(p)
+        if how in ("rows", "both"):
+            for c in ("Y", "C1", "C2"):
+                if q[c]:
+                    row = list(q[c][0])
+                    q[c] = [row] * len(q[c])
+        if how in ("planes", "both"):
+            q["C2"] = q["C1"]
+        out.append(q)
+    return out
+
+
 def hl(n):
     return {"hi": (n >> 16) & 0xFFFF, "lo": n & 0xFFFF}
 
@@ -532,6 +549,12 @@ def execute(job):
     detail = {"exc": ""}
     features = make_features(cfg, outcome)
     pictures = make_pictures(cfg, outcome, job["seed"])
+    inputs = pictures
+    if job.get("share"):
+        # the same picture VALUES held in Python objects that share storage (the common idioms [row] * h and one
+        # plane object used for both colour-difference components); `inputs` keeps an unshared snapshot of the values
+        pictures = share_objects(pictures, job["share"])
+        inputs = [dict((k, ([list(r) for r in v] if k in ("Y", "C1", "C2") else v)) for k, v in p.items()) for p in pictures]
     kwargs = {}
     if cfg["minq"]:
         kwargs["minimum_qindex"] = cfg["minq"]
@@ -564,7 +587,7 @@ def execute(job):
         rec.update(project_stream(stream))
     except Exception as e:  # noqa  (the validator is the judge; an unreadable stream shows up there)
         detail["readback_exc"] = common.exc_signature(e)
-    verdict, sig, pics = decode(data, features, pictures)
+    verdict, sig, pics = decode(data, features, inputs)
     rec["verdict"], rec["pics"] = verdict, pics
     if sig:
         detail["exc"] = sig
@@ -633,11 +656,14 @@ def flatten(results):
 
 
 def case_of(job):
-    return {"cfg": job["cfg"], "outcome": job["outcome"], "seed": job["seed"], "repack": job.get("repack") or []}
+    case = {"cfg": job["cfg"], "outcome": job["outcome"], "seed": job["seed"], "repack": job.get("repack") or []}
+    if job.get("share"):
+        case["share"] = job["share"]
+    return case
 
 
 def replay_case(case, family):
-    job = {"tid": 1, "cfg": case["cfg"], "outcome": case["outcome"], "seed": case["seed"], "repack": case.get("repack") or []}
+    job = {"tid": 1, "cfg": case["cfg"], "outcome": case["outcome"], "seed": case["seed"], "repack": case.get("repack") or [], "share": case.get("share")}
     r = execute(job)
     bad, applied, _ = judge(r["records"])
     return {
